@@ -756,6 +756,9 @@ pub fn step_monitors(props: &[&str], pre: &Sim, act: &Act, ap: &Applied, post: &
 
     // C15: rates posted to the oracle are those of the post-state
     if has(props, "C15") {
+        if let Some(e) = &ap.post_state_err {
+            v.push(viol("C15", "state.query_failed", format!("after {} the State query cannot report the purchase rate: {e}", exec_name(msg))));
+        }
         let posts: Vec<(String, String, String, usize)> = ap
             .out
             .events
